@@ -133,13 +133,16 @@ type sessionCase struct {
 }
 
 type tcase struct {
-	nilCfg   bool
-	sessions []sessionCase
+	nilCfg bool
+	// all sessions of the case are made with one Negotiator value (besides
+	// sharing the StartTLS feature value)
+	sharedNeg bool
+	sessions  []sessionCase
 }
 
 func (tc tcase) String() string {
 	var sb strings.Builder
-	fmt.Fprintf(&sb, "StartTLS(cfg nil=%v) reused for %d sessions:", tc.nilCfg, len(tc.sessions))
+	fmt.Fprintf(&sb, "StartTLS(cfg nil=%v) reused for %d sessions (one Negotiator value for all: %v):", tc.nilCfg, len(tc.sessions), tc.sharedNeg)
 	for i, s := range tc.sessions {
 		fmt.Fprintf(&sb, "\n  session %d: domain=%s first-list=%s answer=%s after-proceed=%s honest-after-tls=%v tee=%v extra-double=%v clear-header-to=%q", i, s.domain, s.first, s.answer, s.after, s.honest, s.tee, s.extraDbl, s.hdrTo)
 	}
@@ -151,7 +154,7 @@ var answers = []string{"proceed", "proceed", "proceed", "failure", "wrongns", "u
 var afters = []string{"tls", "tls", "tls-inject", "tls-inject", "garbage"}
 
 func genCase(t *rapid.T) tcase {
-	tc := tcase{nilCfg: rapid.Bool().Draw(t, "nilcfg")}
+	tc := tcase{nilCfg: rapid.Bool().Draw(t, "nilcfg"), sharedNeg: rapid.Bool().Draw(t, "sharedNegotiator")}
 	n := rapid.SampledFrom([]int{1, 1, 2, 3}).Draw(t, "nsessions")
 	for i := 0; i < n; i++ {
 		tc.sessions = append(tc.sessions, sessionCase{
@@ -230,7 +233,30 @@ func readUntil(p *peerEnd, acc *[]byte, pred func([]byte) bool) bool {
 	return true
 }
 
+// sharedNeg is one Negotiator value used for several sessions, one after the
+// other (a reconnect loop): cfg is what the next session's configuration
+// callback returns.
+type sharedNeg struct {
+	neg xmpp.Negotiator
+	cfg func() xmpp.StreamConfig
+}
+
+func newSharedNeg() *sharedNeg {
+	sn := &sharedNeg{}
+	sn.neg = xmpp.NewNegotiator(func(*xmpp.Session, *xmpp.StreamConfig) xmpp.StreamConfig {
+		if sn.cfg == nil { // (NewNegotiator probes the callback once)
+			return xmpp.StreamConfig{}
+		}
+		return sn.cfg()
+	})
+	return sn
+}
+
 func runSession(sc sessionCase, feature xmpp.StreamFeature, forceTee *bool) sresult {
+	return runSessionNeg(sc, feature, forceTee, nil)
+}
+
+func runSessionNeg(sc sessionCase, feature xmpp.StreamFeature, forceTee *bool, shared *sharedNeg) sresult {
 	var res sresult
 	conn := wire.NewConn()
 	pe := &peerEnd{c: conn, dl: ioWait}
@@ -438,14 +464,19 @@ func runSession(sc sessionCase, feature xmpp.StreamFeature, forceTee *bool) sres
 	go func() {
 		defer close(done)
 		res.panicked = ev.Guard(func() {
-			s, res.err = xmpp.NewSession(context.Background(), local.Domain(), local, conn, 0,
-				xmpp.NewNegotiator(func(*xmpp.Session, *xmpp.StreamConfig) xmpp.StreamConfig {
-					cfg := xmpp.StreamConfig{Features: feats}
-					if useTee {
-						cfg.TeeIn, cfg.TeeOut = &teeIn, &teeOut
-					}
-					return cfg
-				}))
+			build := func() xmpp.StreamConfig {
+				cfg := xmpp.StreamConfig{Features: feats}
+				if useTee {
+					cfg.TeeIn, cfg.TeeOut = &teeIn, &teeOut
+				}
+				return cfg
+			}
+			neg := xmpp.NewNegotiator(func(*xmpp.Session, *xmpp.StreamConfig) xmpp.StreamConfig { return build() })
+			if shared != nil {
+				shared.cfg = build
+				neg = shared.neg
+			}
+			s, res.err = xmpp.NewSession(context.Background(), local.Domain(), local, conn, 0, neg)
 		})
 	}()
 	select {
@@ -525,8 +556,12 @@ func check(t failer, tc tcase) {
 		cfg = &tls.Config{RootCAs: rootPool, ServerName: "example.net", MinVersion: tls.VersionTLS12}
 	}
 	feature := xmpp.StartTLS(cfg)
+	var shared *sharedNeg
+	if tc.sharedNeg {
+		shared = newSharedNeg()
+	}
 	for i, sc := range tc.sessions {
-		r := runSession(sc, feature, nil)
+		r := runSessionNeg(sc, feature, nil, shared)
 		fail := func(format string, args ...any) {
 			t.Helper()
 			ev.Failf(t, "%s\nsession %d: err=%v state=%v tls-handshake-complete=%v client-hello-seen=%v sni=%q\nclear-text output: %q\nclear-text input: %q\n%s",
@@ -645,6 +680,9 @@ func classify(tc tcase) (bool, []string) {
 	}
 	if tc.nilCfg {
 		classes = append(classes, "cfg-nil")
+	}
+	if tc.sharedNeg && len(tc.sessions) >= 2 {
+		classes = append(classes, "negotiator-value-reused")
 	}
 	return nt, classes
 }
